@@ -204,11 +204,36 @@ def keyArg (jt : String) (p : KeyPair) : SelArg :=
     | _ => .name p.1
   else .name p.1
 
+/-! The code names a column in two ways: `Column.alias_or_name` (quote-preserving: a name that is not a plain identifier
+is rendered with the input dialect's quotes, `` `order id` ``) and `expression.alias_or_name` (sqlglot's plain name).
+Which rendering each site of the name-join branch uses is regenerated (`Gen.selectNameRender`, `Gen.keyNameRender`,
+`Gen.dedupKeyRender`); what needs quotes (`needsQuote`) is hand-modelled and compared with the running code. -/
+
+/-- characters the input dialect's tokenizer keeps inside a bare identifier -/
+def identChar (c : Char) : Bool := c.isAlphanum || c == '_' || c.toNat ≥ 128
+
+def needsQuote (n : Name) : Bool := !(n.toList.all identChar)
+
+/-- `quote_preserving_alias_or_name` -/
+def quoteName (n : Name) : String := if needsQuote n then "`" ++ n ++ "`" else n
+
+def Gen.Render.apply : Render → Name → String
+  | .quoted => quoteName
+  | .plain => fun n => n
+
+/-- the strings a select column's name is compared with by the de-duplication of the name-join branch: the entries of
+    `join_column_names` as listed (a COALESCE item by the quote-preserving rendering of its alias), or — when the source
+    builds the list from `join_column_pairs` — the generated rendering of the left key column -/
+def dedupKeyNames (jt : String) (pairs : List KeyPair) : List String :=
+  match dedupKeyRender with
+  | some r => pairs.map (fun p => r.apply p.1)
+  | none => pairs.map (fun p => if coalesceJoinType = some jt then quoteName p.1 else keyNameRender.apply p.1)
+
 /-- name-join branch of `join`: keys first, the remaining select columns with the key names filtered out -/
 def nameJoinArgs (jt : String) (selfCols otherCols : List Name) (pairs : List KeyPair) : List SelArg :=
-  let keys := pairs.map (·.1)
+  let keyNames := dedupKeyNames jt pairs
   let sc := selectColumns jt selfCols otherCols
-  let rest := if dedupKeysOnly then sc.filter (fun c => c ∉ keys) else sc
+  let rest := if dedupKeysOnly then sc.filter (fun c => selectNameRender.apply c ∉ keyNames) else sc
   let keyArgs := pairs.map (keyArg jt)
   if keysFirst then keyArgs ++ rest.map .name else rest.map .name ++ keyArgs
 
@@ -228,7 +253,7 @@ def nameJoinOn : List KeyPair → Option Expr
 def keyPairs (cands : List (Name × List Name)) (right : Name) : List Name → Option (List KeyPair)
   | [] => some []
   | k :: ks =>
-    match (if keyLeftmostFirst then cands else cands.reverse).find? (fun t => k ∈ t.2), keyPairs cands right ks with
+    match (if keyLeftmostFirst then cands else cands.reverse).find? (fun t => keyLookupRender.apply k ∈ t.2), keyPairs cands right ks with
     | some t, some ps => some ((k, t.1, right) :: ps)
     | _, _ => none
 
